@@ -142,4 +142,18 @@ PROPS = {
             "response compression never engages in the pinned tree (encoding offers are built from the codec table), so clause (d) is exercised only on identity responses; class 'response-gzip' counts the others",
         ],
     },
+    "C20": {
+        "pkg": "c20",
+        "stages": [{"run": "^TestProp$", "quick": (3000, 4), "thorough": (40000, 16)}],
+        "technique": "property-based testing (rapid): generated mount-pattern sets and requests on four protocols; metamorphic oracle (response under prefix == bare mux response on stripped path) plus a ServeMux longest-prefix model",
+        "level_text": "Generated-input search over mount pattern sets, extra handlers and requests (transcoding, Twirp, gRPC, gRPC-web) driven through http.Server.Handler "
+                      "in-process; each response (status, headers, body, trailers, handler-received message) must equal the bare mux's response on the stripped path; "
+                      "paths outside every prefix must not reach the mux; extra handlers keep their patterns. Exploration only.",
+        "level_note": "Requests go through server.Handler.ServeHTTP with httptest recorders (the h2c wrapper passes non-upgrade requests through); redirecting paths (bare prefix without slash, unclean paths) are not generated.",
+        "rule": "rapid draws 1-4 mount patterns (with/without trailing slash, '/', nested '/a' '/a/b', '/twirp'), optional extra handlers on disjoint patterns, and "
+                "4-10 requests = (configured prefix | near-miss prefix | none | extra pattern) + (route, near miss or unknown path of a fixed rule set) on one of 4 protocols "
+                "with queries and bodies. Non-trivial = a prefixed request served 200, or a request outside every prefix, or a nested prefix; distinct = (pattern set, extras, "
+                "per-request protocol and prefix).",
+        "assumptions": ["duplicate mount patterns (ServeMux panics by contract) are not generated"],
+    },
 }
